@@ -191,7 +191,7 @@ func genAries(repo string) (string, error) {
 	b.WriteString("(* Generated by gen/aries.go from aries/service_set.go, aries/host_mux.go,\n" +
 		"   aries/router.go, aries/trie.go. Do not edit. *)\n" +
 		"From Coq Require Import List String.\n" +
-		"From Verif Require Import Aries.Tiers Aries.Router.\n" +
+		"From Verif Require Import Aries.Tiers Aries.Router Aries.CtxSeq.\n" +
 		"Import ListNotations.\nLocal Open Scope string_scope.\n\n")
 
 	// ServiceSet.Serve / ServeInternal
@@ -292,7 +292,13 @@ func genAries(repo string) (string, error) {
 	{
 		disp := "(RCUnknown \"dispatch condition not found\")"
 		meth := "(RCUnknown \"method check not found\")"
-		if a, fd, err := methodCtx(p, "Router", "Serve"); err == nil {
+		// The body that dispatches is Router.serve when Serve is the wrapper
+		// that restores the route position on a miss, else Serve itself.
+		bodyName := "Serve"
+		if p.funcDecl("Router", "serve") != nil {
+			bodyName = "serve"
+		}
+		if a, fd, err := methodCtx(p, "Router", bodyName); err == nil {
 			ast.Inspect(fd.Body, func(nd ast.Node) bool {
 				x, ok := nd.(*ast.IfStmt)
 				if !ok || x.Init != nil {
@@ -313,6 +319,33 @@ func genAries(repo string) (string, error) {
 		}
 		fmt.Fprintf(&b, "Definition gen_dispatch_cond : rcond :=\n  %s.\n", disp)
 		fmt.Fprintf(&b, "Definition gen_method_reject : rcond :=\n  %s.\n\n", meth)
+
+		// What Router.Serve leaves in the context when it misses:
+		//   pos := c.routePos; err := r.serve(c); if err == Miss { c.routePos = pos }; return err
+		// = RWRestoreOnMiss; Serve being the dispatching body itself (no
+		// routePos assignment at all) = RWPlain; anything else Unknown.
+		wrap := "(RWUnknown \"Router.Serve not found\")"
+		if a, fd, err := methodCtx(p, "Router", "Serve"); err == nil {
+			rv, c := a.recv, a.c
+			l := fd.Body.List
+			txt := make([]string, len(l))
+			for i, st := range l {
+				txt[i] = p.src(st)
+			}
+			switch {
+			case bodyName == "serve" && len(l) == 4 &&
+				txt[0] == "pos := "+c+".routePos" &&
+				txt[1] == "err := "+rv+".serve("+c+")" &&
+				txt[2] == "if err == Miss { "+c+".routePos = pos }" &&
+				txt[3] == "return err":
+				wrap = "RWRestoreOnMiss"
+			case bodyName == "Serve" && !strings.Contains(p.src(fd.Body), "routePos"):
+				wrap = "RWPlain"
+			default:
+				wrap = "(RWUnknown " + coqStr(p.src(fd.Body)) + ")"
+			}
+		}
+		fmt.Fprintf(&b, "Definition gen_router_wrap : rwrap :=\n  %s.\n\n", wrap)
 	}
 
 	// trie.go: newTrieNode sets hit: true; newTrieRoot() = newTrieNode("", "")
@@ -627,6 +660,9 @@ func genAriesEntry(repo string) (string, error) {
 		w = append(w, servingWrites(p, "trieNode", "find")...)
 		w = append(w, servingWrites(p, "", "trieFind", "root")...)
 		w = append(w, servingWrites(p, "Router", "Serve")...)
+		if p.funcDecl("Router", "serve") != nil {
+			w = append(w, servingWrites(p, "Router", "serve")...)
+		}
 		w = append(w, servingWrites(p, "Router", "notFound")...)
 		w = append(w, servingWrites(p, "HostMux", "Serve")...)
 		if tp, err := loadPkg(filepath.Join(repo, "trie")); err == nil {
